@@ -168,4 +168,30 @@ Old0510Stream(c, minor) ==
   LET ver == <<48, 46, 53, 46, 49, 48 + (minor - 10)>> IN
   IF Len(c.nodes) = 0 THEN StreamOfBody(ver, <<>>)
   ELSE StreamOfBody(ver, Old0510Body(Encode(c), IF c.o.innp THEN PrefixEltsOf(c) ELSE <<>>))
+
+\* ---- the loader's conversion of a 0.5.10 / 0.5.11 body --------------------------------
+\* (Unmarshal: the body is parsed as the CURRENT message -- fields 12, 13, 15 are unknown to
+\* it and ignored -- then before000512InnerPrefixTobitstr and before000512FixLeafSize)
+\* control byte + payload with end mark -> payload + trailing mask byte (bitstr), in place
+NewPrefixElt(o) ==
+  LET pl == SubSeq(o, 2, Len(o)) IN
+  IF o[1] % 2 = 0 THEN pl \o <<255>>
+  ELSE LET last == pl[Len(pl)]
+           nz   == CHOOSE z \in 0..7 : (last \div Pow2(z)) % 2 = 1 /\ \A y \in 0..(z - 1) : (last \div Pow2(y)) % 2 = 0
+       IN [pl EXCEPT ![Len(pl)] = last - Pow2(nz)] \o <<256 - Pow2(nz + 1)>>
+ConvertPrefixes(position, bytes) ==
+  LET pos == SetToSortSeq(position.bits, <) IN
+  FlattenSeq([x \in 1..(Len(pos) - 1) |-> NewPrefixElt(SubSeq(bytes, pos[x] + 1, pos[x + 1]))])
+\* valsize: the encoder's fixed size (0.5.10 stored bare leaf bytes)
+Load0510(body, valsize) ==
+  LET p   == ParseSlimMsg(body)
+      ipb == IF p.ip.position.nwords >= 0 /\ Len(p.ip.bytes) > 0 THEN ConvertPrefixes(p.ip.position, p.ip.bytes) ELSE p.ip.bytes
+      lv  == IF ~p.leaves.present \/ p.leaves.presence.nwords >= 0 THEN p.leaves
+             ELSE LET n == Len(p.leaves.bytes) \div valsize IN
+                  [present |-> TRUE, n |-> n, eltcnt |-> n, presence |-> BM(0..(n - 1), n, "r64"), fixed |-> valsize,
+                   position |-> NilBM, bytes |-> p.leaves.bytes]
+  IN [p EXCEPT !.ip.bytes = ipb, !.leaves = lv]
+\* what a loaded 0.5.10 stream of c must be: Encode(c) with the word-granular select indexes
+Loaded0510Form(m) ==
+  [m EXCEPT !.ip.position = WordSel(@), !.lp = IF @.present THEN [@ EXCEPT !.position = WordSel(@)] ELSE @]
 =============================================================================
